@@ -741,6 +741,11 @@ static bool compile_builtin_call(CG *cg, ASTNode *node) {
             compile_expr(cg, args[0]);  /* size */
             uint16_t sz_slot = local_add(cg, "__anew_sz__", 0);
             emit_op(cg, OP_STORE_LOCAL, (int)sz_slot);
+            /* a negative size is an error (docs/STDLIB.md): assert (>= size 0) */
+            emit_op(cg, OP_LOAD_LOCAL, (int)sz_slot);
+            emit_op(cg, OP_PUSH_I64, (int64_t)0);
+            emit_op(cg, OP_GE);
+            emit_op(cg, OP_ASSERT);
             compile_expr(cg, args[1]);  /* fill value */
             uint16_t fill_slot = local_add(cg, "__anew_fill__", 0);
             emit_op(cg, OP_STORE_LOCAL, (int)fill_slot);
